@@ -69,10 +69,10 @@ def _pair(enc, mac, cmp_alg, seq0=3):
     return tx, wire, rx, out, got, mhs, etm
 
 
-OPS = ['none', 'flip', 'trunc', 'drop', 'dup', 'swap', 'lenfield', 'splice', 'append']
+OPS = ['none', 'flip', 'trunc', 'drop', 'dup', 'swap', 'lenfield', 'splice', 'append', 'lenxor']
 
 
-def _run(combo, op, pkt, pos, mask, val):
+def _run(combo, op, pkt, pos, mask, val, cut=False):
     enc, mac, cmp_alg = combo
     tx, wire, rx, out, got, mhs, etm = _pair(enc, mac, cmp_alg)
     for p in PAYLOADS:
@@ -119,41 +119,64 @@ def _run(combo, op, pkt, pos, mask, val):
     elif op == 'append':
         stream = b''.join(pk) + bytes([mask]) * (pos % 40 + 1)
         first_bad = 3
-    deliver(rx, stream)
-    return got, out, first_bad
+    elif op == 'lenxor':
+        # for stream ciphers (CTR, ChaCha20 length stream) and clear-text lengths (ETM, GCM) this makes the receiver see length = val
+        q = list(pk)
+        true_len = len(q[pkt]) - 4 - mhs
+        x = (true_len ^ val).to_bytes(4, 'big')
+        q[pkt] = bytes(a ^ b for a, b in zip(q[pkt][:4], x)) + q[pkt][4:]
+        stream = b''.join(q)
+        first_bad = pkt if val != true_len else None
+    if cut and first_bad is not None and first_bad < 3:
+        # split delivery: everything up to the end of the first affected packet in one data_received call, each later packet in its own
+        bounds = [len(pk[0]), len(pk[0]) + len(pk[1]), len(pk[0]) + len(pk[1]) + len(pk[2])]
+        marks = [b for b in bounds[first_bad:] if b < len(stream)]
+        prev = 0
+        for b in marks:
+            deliver(rx, stream[prev:b])
+            prev = b
+        deliver(rx, stream[prev:])
+    else:
+        deliver(rx, stream)
+    return got, out, first_bad, (rx._recv_seq - 3) & 0xffffffff
 
 
-def tamper(ci: int, op: int, pkt: int, pos: int, mask: int, vi: int, tier_all: bool) -> bool:
+def tamper(ci: int, op: int, pkt: int, pos: int, mask: int, vi: int, cut: bool, tier_all: bool) -> bool:
     """For each negotiable (cipher, MAC, compression) combination: after one
     tampering operation on the encrypted three-packet stream (bit flips at any
     byte, truncation anywhere, drop / duplicate / swap / splice of whole
     packets, a rewritten length field, appended bytes) the receiver delivers
     exactly the packets before the first affected one, intact and in order,
     then ends with an integrity/protocol error or waits for more bytes; it
-    never delivers anything else and never raises into the loop."""
+    never delivers anything else, never accepts (advances the receive sequence
+    number for) a packet that is not one of those, also when the bytes after
+    the affected packet arrive in later data_received calls (cut), and never
+    raises into the loop."""
     combos = ALL if tier_all else QUICK
     combo = combos[ci % len(combos)]
     opn = pick(OPS, op)
     # only the parameters an operation uses are left for the solver to choose
-    pkt = conc(pkt, 0, 2) if opn in ('drop', 'dup', 'swap', 'lenfield', 'splice') else 0
+    pkt = conc(pkt, 0, 2) if opn in ('drop', 'dup', 'swap', 'lenfield', 'splice', 'lenxor') else 0
     pos = conc(pos, 0, 199) if opn in ('flip', 'trunc') else conc(pos, 0, 3) * 13 if opn == 'append' else 0
     mask = pick([0x01, 0x80, 0xff], mask) if opn in ('flip', 'append') else 1
-    val = pick([0, 1, 3, 4, 8, 12, 13, 28, 0x7fffffff, 0xffffffff], vi) if opn == 'lenfield' else 0
+    val = pick([0, 1, 3, 4, 8, 12, 13, 28, 0x7fffffff, 0xffffffff], vi) if opn in ('lenfield', 'lenxor') else 0
+    cut = bool(cut) if opn != 'none' else False
     with notrace():
-        r = _run(combo, opn, pkt, pos, mask, val)
+        r = _run(combo, opn, pkt, pos, mask, val, cut)
     if r is None:
         return False
-    got, out, first_bad = r
+    got, out, first_bad, accepted = r
     if out.internal:
         return False                          # an unexpected exception type while handling hostile bytes
     if opn == 'none':
         return got == PAYLOADS and not out.closed
-    if len(out.closed) > 1:
+    if len(out.closed) > 1 and not cut:
+        return False                          # (with split delivery the stuck parser reports the same failure again for every later chunk)
+    if [e for e in out.closed if not isinstance(e, DisconnectError)]:
         return False
-    if out.closed and not isinstance(out.closed[0], DisconnectError):
+    # packets that passed the integrity check (receive sequence number advanced) = packets delivered: nothing forged is ever accepted
+    if accepted != len(got):
         return False
-    if opn == 'lenfield' and first_bad is not None:
-        pass
     # delivered packets: a prefix of the legitimate list, strictly before the first affected packet
     n = len(got)
     if got != PAYLOADS[:n]:
@@ -215,7 +238,7 @@ def nonce_discipline(seq: int, which: int) -> bool:
 
 OBLIGATIONS = [
     Ob('tamper', tamper,
-       sym=dict(pkt=R(0, 2), pos=R(0, 199), mask=R(0, 2), vi=R(0, 9)),
+       sym=dict(pkt=R(0, 2), pos=R(0, 199), mask=R(0, 2), vi=R(0, 9), cut=B),
        shards=dict(ci=list(range(len(QUICK))), op=list(range(len(OPS))), tier_all=[False]),
        thorough_shards=dict(ci=list(range(len(ALL))), op=list(range(len(OPS))), tier_all=[True]),
        timeout=250, thorough_timeout=600,
@@ -224,7 +247,7 @@ OBLIGATIONS = [
                   E.GCMEncryption.decrypt_packet, E.ChachaEncryption.decrypt_packet, E.ChachaEncryption.decrypt_header,
                   M._HMAC.verify, M._UMAC.verify],
        bounds='8 representative (cipher, MAC, compression) combinations in quick, all %d registered (cipher, MAC) pairs in thorough; three packets; one operation from '
-              '{bit flip at every byte with masks 0x01/0x80/0xff, truncation at every byte, drop, duplicate, swap, splice, length field := 10 values, 1..40 appended bytes}' % len(ALL)),
+              '{bit flip at every byte with masks 0x01/0x80/0xff, truncation at every byte, drop, duplicate, swap, splice, length field := 10 values (raw, and xor-ed so that a stream cipher / clear-text length decodes to the value), 1..40 appended bytes} x {one delivery, split delivery after the affected packet}' % len(ALL)),
     Ob('seq_wrap', seq_wrap, sym=dict(s0=R(0, 3)), shards=dict(which=list(range(len(QUICK)))), timeout=120,
        functions=[C.SSHConnection.send_packet, C.SSHConnection._finish_recv_packet],
        bounds='8 combinations x first sequence number in {2^32-3, 2^32-2, 2^32-1, 0}'),
